@@ -169,6 +169,8 @@ def enum_roundtrips(ctx: Ctx, eng: morph.Engine, n: int):
             continue
         E.__module__ = __name__
         wrapper = rng.choice(["bare", "bare", "optional", "list", "dict", "field"])
+        if wrapper == "optional" and any(m.value is None for m in E):
+            wrapper = "list"     # Optional[E] with a None-valued member: the two union cases overlap on None (documented limit)
         if wrapper == "field":
             M = dataclasses.make_dataclass(f"GEM{i}", [("e", E), ("n", int, dataclasses.field(default=0))])
             M.__module__ = __name__
